@@ -23,6 +23,7 @@ import AgVerif.Model.LitCtx
 import AgVerif.Proof.JExprMain
 import AgVerif.Proof.JExprSem
 import AgVerif.Proof.JExprInj
+import AgVerif.Proof.Propagate
 
 namespace AgVerif.C21
 open AgVerif.Translate AgVerif.JavaSem
@@ -300,5 +301,23 @@ example : let e : Expr := .bin .shr (.cast .long (.var .int 1)) (.bin .and (.var
   rw [if_neg (by decide)]; simp
 
 example (fm : Form) : JExpr.DeclaresRegs (JExpr.declFor fm) fm := JExpr.declFor_declares fm
+
+/-! ## register propagation on one basic block (`register_propagation`, Model/Propagate.lean) -/
+
+/-- REFUTED for the code as it is (known finding `propagation-past-redefinition`): handed the block
+    `v0 = (char) p10; p10 %= p11; return v0` with the chains `build_def_use` computes for it, the model of
+    `register_propagation` leaves `p10 %= p11; return (char) p10` (`CastExpression.is_const()` is true for a cast of a
+    `Param`, and for a "constant" right-hand side the pass does not ask `clear_path`): with `p10 = 7`, `p11 = 4` the
+    block returns 7 before the pass and 3 after it. -/
+theorem propagation_past_redefinition_refuted :
+    Propagate.propagate Propagate.pastRedefinition =
+        ⟨[10, 11],
+         [.assign (some 10) (.bin .rem (some 10) (.var 10) (some 11) (.var 11)),
+          .ret (some 0) (.un .i2c (some 10) (.var 10))]⟩ ∧
+      Propagate.pastRedefinition.run Propagate.javaSem Propagate.env74 = .ret 7 [] ∧
+      (Propagate.propagate Propagate.pastRedefinition).run Propagate.javaSem Propagate.env74 = .ret 3 [] ∧
+      ¬ Propagate.SafeBlock Propagate.pastRedefinition :=
+  ⟨Propagate.past_redefinition_output, Propagate.past_redefinition_before, Propagate.past_redefinition_after,
+   Propagate.past_redefinition_not_safe⟩
 
 end AgVerif.C21
